@@ -20,14 +20,25 @@
     from `retry.Execute` (and a plain counter, a half-locked cache, a handed-out table) and accepts the locked variant;
     `C20_globals_config_assumed` names the one variable whose verdict rests on the configuration-setter assumption.
 
+  * Part D (the regenerated table `Mcp.Gen.rcApiArgs` of every map / slice / pointer parameter of the public API,
+    `Mcp.ApiArgs`): the caller's memory.  `C20_api_args_not_retained` (kernel-decided over the complete table): the
+    library keeps no argument's own object beyond the call — does not store it, hand it to another goroutine, return
+    an alias of it, or pass it to code without a summary — except the entries of `reviewedRetention`, reviewed one by
+    one (registration keeps the entry, options keep what they are given, net/http's contracts) and matched by API,
+    parameter AND verdict, and the one known defect (`knownRetention`).  `C20_api_args_review_exact`: the lists are
+    exactly the non-compliant entries.  `C20_send_apis_keep_nothing` names the send APIs that must be in the table and
+    compliant; `C20_retained_argument_rejected` shows the predicate rejects a params map queued for a writer goroutine.
+
   Partial: lock tracking is lexical and per function (no alias analysis, no inter-procedural propagation), memory
   reached through a pointer stored in a field is outside the table, and the Go memory model itself is trusted,
   not modelled instruction by instruction; `HB` here is a subset of Go's happens-before.
 -/
 import Mcp.Model.Lockset
 import Mcp.Model.Globals
+import Mcp.Model.ApiArgs
 import Mcp.Gen.FieldLocks
 import Mcp.Gen.Globals
+import Mcp.Gen.ApiArgs
 namespace Mcp.Props.C20
 open Mcp.Lockset Mcp.Str
 
@@ -577,5 +588,141 @@ theorem C20_globals_table_covers :
     (Mcp.Gen.rcGlobals.any fun g => g.vkind == .safeObject && (g.accs.any fun a => a.kind == .use && !a.init)) = true ∧
     (Mcp.Gen.rcGlobals.all fun g => g.accs.any fun a => a.init && a.kind == .write) = true := by
   decide +kernel
+
+/-! ## Part D — the caller's memory behind API arguments -/
+
+open Mcp.ApiArgs in
+/-- **Arguments the library keeps by contract** — every non-compliant entry of today's table, reviewed; table order.
+    Reasons:
+    * [opt]  option / property constructors (`With…`, `Enum`, `Items`, `Properties`): the result is a closure that
+             captures the argument (`returnedAsIs`) and reads or copies it when the option is APPLIED — by `NewTool`,
+             `NewServer`, `NewSSEServer`, `NewClient`, `NewStdioClient`, `NewResourceTemplate` before they return; where
+             the built object keeps the argument itself (`storedAsIs`: `Items`, `Properties`, `WithToolAnnotations`,
+             `WithTemplateAnnotations`, `WithHTTPHeaders`, `WithCustomServer`, `WithHTTPServer`) it is configuration
+             handed over at construction: the caller does not touch it afterwards.
+    * [reg]  registration keeps the entry: `Register{Tool,Prompt,Resource,Resources,ResourceTemplate}` of the three
+             servers store the pointer in the registry, listings and calls read it later; `GetTool(s)` hand out
+             copies.  Contract (assumption of this property): registered entries are not mutated after registration.
+    * [http] net/http's own contracts: the `*http.Request` of `ServeHTTP` is net/http's for the duration of the
+             handler (the legacy SSE server reads its context and headers from the goroutines of that request);
+             `defaultHTTPReqHandler.Handle` performs the request it is given with the client it is given
+             (`http.Client` is safe for concurrent use, the request was built by the library for this one call). -/
+def reviewedRetention : List Reviewed :=
+  [⟨t!"Enum", t!"values", .returnedAsIs⟩,                                   -- [opt] copied into a fresh []any when applied
+   ⟨t!"Items", t!"itemSchema", .storedAsIs⟩,                                -- [opt] the schema keeps the item schema
+   ⟨t!"Properties", t!"props", .storedAsIs⟩,                                -- [opt] the schema keeps the property map
+   ⟨t!"SSEServer.RegisterPrompt", t!"prompt", .storedAsIs⟩,                 -- [reg]
+   ⟨t!"SSEServer.RegisterResource", t!"resource", .storedAsIs⟩,             -- [reg]
+   ⟨t!"SSEServer.RegisterResourceTemplate", t!"template", .storedAsIs⟩,     -- [reg]
+   ⟨t!"SSEServer.RegisterResources", t!"resource", .storedAsIs⟩,            -- [reg]
+   ⟨t!"SSEServer.RegisterTool", t!"tool", .storedAsIs⟩,                     -- [reg]
+   ⟨t!"SSEServer.ServeHTTP", t!"r", .unknown⟩,                              -- [http]
+   ⟨t!"Server.RegisterPrompt", t!"prompt", .storedAsIs⟩,                    -- [reg]
+   ⟨t!"Server.RegisterResource", t!"resource", .storedAsIs⟩,                -- [reg]
+   ⟨t!"Server.RegisterResourceTemplate", t!"template", .storedAsIs⟩,        -- [reg]
+   ⟨t!"Server.RegisterResources", t!"resource", .storedAsIs⟩,               -- [reg]
+   ⟨t!"Server.RegisterTool", t!"tool", .storedAsIs⟩,                        -- [reg]
+   ⟨t!"StdioServer.RegisterPrompt", t!"prompt", .storedAsIs⟩,               -- [reg]
+   ⟨t!"StdioServer.RegisterResource", t!"resource", .storedAsIs⟩,           -- [reg]
+   ⟨t!"StdioServer.RegisterResourceTemplate", t!"template", .storedAsIs⟩,   -- [reg]
+   ⟨t!"StdioServer.RegisterResources", t!"resource", .storedAsIs⟩,          -- [reg]
+   ⟨t!"StdioServer.RegisterTool", t!"tool", .storedAsIs⟩,                   -- [reg]
+   ⟨t!"WithArray", t!"opts", .returnedAsIs⟩,                                -- [opt] property options applied when the tool option is
+   ⟨t!"WithBoolean", t!"opts", .returnedAsIs⟩,                              -- [opt]
+   ⟨t!"WithCustomServer", t!"srv", .storedAsIs⟩,                            -- [opt] the server uses the caller's http.Server
+   ⟨t!"WithHTTPHeaders", t!"headers", .storedAsIs⟩,                         -- [opt] the transport keeps the header map and reads it per request
+   ⟨t!"WithHTTPReqHandlerOption", t!"options", .returnedAsIs⟩,              -- [opt] appended to the transport's own slice when applied
+   ⟨t!"WithHTTPServer", t!"srv", .storedAsIs⟩,                              -- [opt]
+   ⟨t!"WithInputStruct", t!"opts", .returnedAsIs⟩,                          -- [opt]
+   ⟨t!"WithInteger", t!"opts", .returnedAsIs⟩,                              -- [opt]
+   ⟨t!"WithMiddleware", t!"middlewares", .returnedAsIs⟩,                    -- [opt] appended to the server's own slice when applied
+   ⟨t!"WithNumber", t!"opts", .returnedAsIs⟩,                               -- [opt]
+   ⟨t!"WithObject", t!"opts", .returnedAsIs⟩,                               -- [opt]
+   ⟨t!"WithOutputStruct", t!"opts", .returnedAsIs⟩,                         -- [opt]
+   ⟨t!"WithSSEMiddleware", t!"middlewares", .returnedAsIs⟩,                 -- [opt]
+   ⟨t!"WithStdioCapabilities", t!"capabilities", .returnedAsIs⟩,            -- [opt] copied entry by entry when applied
+   ⟨t!"WithString", t!"opts", .returnedAsIs⟩,                               -- [opt]
+   ⟨t!"WithTemplateAnnotations", t!"audience", .storedAsIs⟩,                -- [opt] the template keeps the audience slice
+   ⟨t!"WithToolAnnotations", t!"annotations", .storedAsIs⟩,                 -- [opt] the tool keeps the annotations object
+   ⟨t!"defaultHTTPReqHandler.Handle", t!"client", .unknown⟩,                -- [http]
+   ⟨t!"defaultHTTPReqHandler.Handle", t!"req", .unknown⟩]                   -- [http]
+
+open Mcp.ApiArgs in
+/-- **Known defect** (open finding `races:arg:StdioServer.SendRequest:request`, confirmed by the race detector):
+    `StdioServer.SendRequest` puts the caller's `*JSONRPCRequest` itself on the session's message channel; the writer
+    goroutine encodes it later.  When the call returns early — the caller's context ends while the request is queued —
+    the caller owns the request again while the library still reads it. -/
+def knownRetention : List Reviewed :=
+  [⟨t!"StdioServer.SendRequest", t!"request", .sentAsIs⟩]
+
+open Mcp.ApiArgs in
+/-- **The library keeps no API argument beyond the call**, decided by the kernel over the complete regenerated table of
+    the map / slice / pointer parameters of the public API: the argument's own object is not stored in memory that
+    outlives the call, not handed to another goroutine, not aliased by the result, not passed to unknown code — it is
+    only read before the call returns, or copied — except the reviewed entries (by contract) and the known defect,
+    each matched with its exact verdict. -/
+theorem C20_api_args_not_retained : ArgsNotRetained (reviewedRetention ++ knownRetention) Mcp.Gen.rcApiArgs := by
+  have h : (Mcp.Gen.rcApiArgs.all fun e => compliant e || reviewedBy (reviewedRetention ++ knownRetention) e) = true := by
+    decide +kernel
+  intro e he
+  have := List.all_eq_true.1 h e he
+  simpa [Bool.or_eq_true] using this
+
+open Mcp.ApiArgs in
+/-- … and the reviewed and known entries are exactly the non-compliant ones: none more (a new retention breaks
+    `C20_api_args_not_retained`), none fewer (an entry that became compliant, or changed its verdict, must leave). -/
+theorem C20_api_args_review_exact :
+    ∀ r, r ∈ retained Mcp.Gen.rcApiArgs ↔ r ∈ reviewedRetention ++ knownRetention := by
+  have h1 : ((retained Mcp.Gen.rcApiArgs).all fun r => (reviewedRetention ++ knownRetention).contains r) = true := by decide +kernel
+  have h2 : ((reviewedRetention ++ knownRetention).all fun r => (retained Mcp.Gen.rcApiArgs).contains r) = true := by decide +kernel
+  intro r
+  constructor
+  · intro h; exact List.contains_iff_mem.1 (List.all_eq_true.1 h1 r h)
+  · intro h; exact List.contains_iff_mem.1 (List.all_eq_true.1 h2 r h)
+
+open Mcp.ApiArgs in
+/-- **The send APIs are in the table and keep nothing**: the notification constructors and every public way of sending
+    a notification or a server→client request with caller-built parameters (the three `Server` send APIs, the legacy
+    SSE server's, the notification sender handlers find in their context), the client calls, and `UnregisterTools`. -/
+theorem C20_send_apis_keep_nothing :
+    keepsNothing Mcp.Gen.rcApiArgs t!"NewJSONRPCNotificationFromMap" t!"params" = true ∧
+    keepsNothing Mcp.Gen.rcApiArgs t!"NewNotification" t!"params" = true ∧
+    keepsNothing Mcp.Gen.rcApiArgs t!"Server.NewNotification" t!"params" = true ∧
+    keepsNothing Mcp.Gen.rcApiArgs t!"Server.SendNotification" t!"params" = true ∧
+    keepsNothing Mcp.Gen.rcApiArgs t!"Server.BroadcastNotification" t!"params" = true ∧
+    keepsNothing Mcp.Gen.rcApiArgs t!"Server.SendFilteredNotification" t!"params" = true ∧
+    keepsNothing Mcp.Gen.rcApiArgs t!"SSEServer.SendNotification" t!"params" = true ∧
+    keepsNothing Mcp.Gen.rcApiArgs t!"sseNotificationSender.SendCustomNotification" t!"params" = true ∧
+    keepsNothing Mcp.Gen.rcApiArgs t!"sseNotificationSender.SendNotification" t!"notification" = true ∧
+    keepsNothing Mcp.Gen.rcApiArgs t!"Server.SendRequest" t!"request" = true ∧
+    keepsNothing Mcp.Gen.rcApiArgs t!"SSEServer.SendRequest" t!"request" = true ∧
+    keepsNothing Mcp.Gen.rcApiArgs t!"Client.CallTool" t!"callToolReq" = true ∧
+    keepsNothing Mcp.Gen.rcApiArgs t!"StdioClient.CallTool" t!"req" = true ∧
+    keepsNothing Mcp.Gen.rcApiArgs t!"Server.UnregisterTools" t!"names" = true := by
+  decide +kernel
+
+open Mcp.ApiArgs in
+/-- **The predicate rejects what it must.**  A notification constructor that uses the caller's params map itself
+    (`returnedAsIs`) and a `SendNotification` that queues that notification for the session's writer goroutine
+    (`sentAsIs`) are neither compliant nor reviewed; the same API with a copying constructor is compliant; an argument
+    passed to unknown code is rejected; `RegisterTool` keeping the `*Tool` is reviewed, but not if it also handed the
+    tool to another goroutine (the verdict is part of the review). -/
+theorem C20_retained_argument_rejected :
+    compliant ctorKeepsMap = false ∧ reviewedBy (reviewedRetention ++ knownRetention) ctorKeepsMap = false ∧
+    compliant sendQueuesMap = false ∧ verdict sendQueuesMap = .sentAsIs ∧
+    reviewedBy (reviewedRetention ++ knownRetention) sendQueuesMap = false ∧
+    compliant sendCopiesMap = true ∧
+    compliant argEscapes = false ∧ reviewedBy (reviewedRetention ++ knownRetention) argEscapes = false ∧
+    compliant registerKeepsTool = false ∧ reviewedBy (reviewedRetention ++ knownRetention) registerKeepsTool = true ∧
+    reviewedBy (reviewedRetention ++ knownRetention) registerSendsTool = false := by
+  decide
+
+open Mcp.ApiArgs in
+/-- Non-vacuity of the table obligation: it is false of a table that contains the queued params map. -/
+example : ¬ ArgsNotRetained (reviewedRetention ++ knownRetention) (sendQueuesMap :: Mcp.Gen.rcApiArgs) := by
+  intro h
+  have := h sendQueuesMap (List.mem_cons_self ..)
+  revert this
+  decide
 
 end Mcp.Props.C20
